@@ -353,6 +353,15 @@ func gen(c *harness.C) []harness.Case {
 			cases = append(cases, rekeyCase(cfg{be: "ps", n: nt[0], t: nt[1]}))
 		}
 	}
+	// an off-polynomial key at the last position x the deadline landing at every look at the context
+	for _, nt := range [][2]int{{3, 2}, {4, 2}, {5, 2}, {5, 3}, {4, 3}} {
+		if haveBLS {
+			cases = append(cases, deadlineSweepCase(cfg{be: "bls", n: nt[0], t: nt[1]}))
+		}
+		if nt[0] <= 4 || c.Thorough() {
+			cases = append(cases, deadlineSweepCase(cfg{be: "ps", n: nt[0], t: nt[1]}))
+		}
+	}
 	// committees that are not 1..n in ascending order: permuted, sparse, both
 	for _, ids := range [][]uint16{{3, 1, 2}, {2, 3, 1}, {20, 7, 12}, {5, 7, 9}, {4, 2, 1, 3}, {300, 7, 2, 41}} {
 		for t := 2; t <= len(ids); t++ {
